@@ -21,17 +21,20 @@ manifest, and comes with a demonstration test. From round 2 on the agents were a
 of conditions rather than single boundary values; in round 4 they were asked to aim at what a large
 randomized and boundary-value campaign would still miss; in rounds 5 and 6 for plausible refactorings,
 optimisations and well-meant extra checks whose flaw needs a particular interleaving, fault point,
-multi-step sequence, unusual input or two cooperating code sites. Every change was confirmed here with
+multi-step sequence, unusual input or two cooperating code sites; in round 7 for small edits to existing lines; in round 8
+for both kinds; in round 9 the agents were also told what kind of campaign the change has to slip through. Every change was confirmed here with
 `tools/confirmseed` (patch applies to HEAD; builds; existing tests pass with it; demonstration passes
 without and fails with it) before it was kept under `seeded/<id>/` (`patch.diff`, `demo_test.go.txt`,
 the agent's `README.md`, `meta.json`). The checks were run against each change in a scratch copy of
-`/repo` (`tools/tryseed`, `VERIF_REPO`); `/repo` itself was never modified. Rounds 2 to 6 were first
+`/repo` (`tools/tryseed`, `VERIF_REPO`); `/repo` itself was never modified. Rounds 2 to 9 were first
 run against the committed state *before* any strengthening (a `vp run` snapshot), so "caught at first"
 is an honest measure of what the machinery detected unprompted: %s.
 Every miss was analysed, the generators or the attribution of notes were strengthened (never a verdict
 loosened), the unchanged tree was re-checked for false alarms, and all of them are detected now
-(`bin/selftest --seeds` re-runs the whole matrix; three changes, C07-r4a, C03-r5a and C07-r6, need the
-thorough tier because they only manifest on frames above 1 MiB). The falling rate of "caught at first"
+(`bin/selftest --seeds` re-runs the whole matrix) - except three changes of round 9 that stay undetected and are kept on
+record as limits (section 13.5b: a 32-bit hash collision, a 256 MiB frame, an allocation below the slack of the bound). Six
+changes need the thorough tier because they only manifest on frames above 1 MiB or at one exact size (C07-r4a, C03-r5a,
+C07-r6, C03-r9d, C08-r9b, C10-r9b). The falling rate of "caught at first"
 from round to round is the point of the exercise: each round was asked to evade what the earlier rounds
 had taught the machinery, and every miss became a new generator dimension or a sharper rule.
 
